@@ -254,3 +254,71 @@ func slowOf(tier string) int {
 	}
 	return 20
 }
+
+// queryText: the stand-alone SMT-LIB query of one obligation.
+func queryText(vc *VC, o *Obligation) string {
+	var b strings.Builder
+	b.WriteString("(set-option :produce-models true)\n" + vc.Options + "(set-logic ALL)\n")
+	b.WriteString(vc.S.prefix(o.Prefix))
+	b.WriteString("\n")
+	if o.Cover {
+		b.WriteString("(assert " + o.Reach + ")\n")
+	} else {
+		b.WriteString("(assert " + and(o.Reach, not(o.Goal)) + ")\n")
+	}
+	b.WriteString("(check-sat)\n")
+	return b.String()
+}
+
+// crossCheck (thorough tier): every obligation discharged by the first solver is put to the two
+// other solvers as well.  An `unsat` from either confirms it; `sat` from one of them is a
+// disagreement between solvers and is reported; neither deciding in time leaves it unconfirmed
+// (counted in the evidence, not an alarm: the obligation stays discharged by the first solver).
+func crossCheck(vc *VC, dir, tag string, secs, workers int) {
+	os.MkdirAll(dir, 0o755)
+	var wg sync.WaitGroup
+	sem := make(chan struct{}, workers)
+	for k, o := range vc.obls {
+		if o.Cover || o.Status != "discharged" {
+			continue
+		}
+		k, o := k, o
+		wg.Add(1)
+		sem <- struct{}{}
+		go func() {
+			defer wg.Done()
+			defer func() { <-sem }()
+			file := filepath.Join(dir, fmt.Sprintf("%s_x%03d.smt2", sanitize(tag), k))
+			// cvc5 does not accept z3's option names
+			txt := queryText(vc, o)
+			os.WriteFile(file, []byte(txt), 0o644)
+			defer os.Remove(file)
+			cfile := file + ".cvc5.smt2"
+			var cb strings.Builder
+			for _, ln := range strings.Split(txt, "\n") {
+				if strings.HasPrefix(ln, "(set-option :smt.") {
+					continue
+				}
+				cb.WriteString(ln + "\n")
+			}
+			os.WriteFile(cfile, []byte(cb.String()), 0o644)
+			defer os.Remove(cfile)
+			ctx, cancel := context.WithCancel(context.Background())
+			defer cancel()
+			ch := make(chan solveResult, 2)
+			go func() { ch <- runSolver(ctx, solvers[2], cfile, secs) }()
+			go func() { ch <- runSolver(ctx, solvers[1], file, secs) }()
+			for i := 0; i < 2; i++ {
+				x := <-ch
+				if x.status == "unsat" {
+					o.Confirm = x.solver
+					return
+				}
+				if x.status == "sat" {
+					o.Disagree = x.solver
+				}
+			}
+		}()
+	}
+	wg.Wait()
+}
